@@ -33,7 +33,8 @@ def proc_case(draw, n, mle=True):
         prog = draw(qubits.qubit_program(n, max_gates=4 if n == 1 else 5, max_heralded=1, three=False))
     wk = draw(st.sampled_from(["haar", "near", "perm", "same"]))
     return {"prog": prog, "target": [wk, draw(st.integers(0, 10 ** 6))], "mle": mle,
-            "ulp_seed": draw(st.one_of(st.none(), st.integers(0, 10 ** 6)))}
+            "ulp_seed": draw(st.one_of(st.none(), st.integers(0, 10 ** 6))),
+            "scale_seed": draw(st.one_of(st.none(), st.integers(0, 10 ** 6)))}
 
 
 def independent_choi(V):
@@ -56,16 +57,23 @@ def run_proc(case):
     base = call("build", qubits.build_real, prog)
     snap = snapshot(base)
 
-    def experiment(circuits, inputs):
-        us = case.get("ulp_seed")
-        return [qubits.exact_counts(c, n, list(s), qubits.ulp_choice(us, i))
-                for i, (c, s) in enumerate(zip(circuits, inputs, strict=True))]
+    def make_experiment(scaled):
+        def experiment(circuits, inputs):
+            us = case.get("ulp_seed")
+            ss = case.get("scale_seed") if scaled else None
+            return [qubits.exact_counts(c, n, list(s), qubits.ulp_choice(us, i), scale=qubits.scale_choice(ss, i))
+                    for i, (c, s) in enumerate(zip(circuits, inputs, strict=True))]
+        return experiment
+    # linear inversion and gate fidelity also get totals that differ from circuit to circuit (each measurement is
+    # normalised by its own total); the MLE optimiser is fed plain weights, its own stopping rule is read at 0.99
+    experiment = make_experiment(False)
+    experiment_scaled = make_experiment(True)
 
     choi_ref = call("choi_from_unitary", tomography.choi_from_unitary, V)
     if np.abs(choi_ref - independent_choi(V)).max() > 1e-10:
         raise Violation("choi_from_unitary(V) differs from sum |i><j| (x) V|i><j|V^dagger",
                         key="choi-from-unitary-definition")
-    li = call("LIProcessTomography", tomography.LIProcessTomography, n, base, experiment)
+    li = call("LIProcessTomography", tomography.LIProcessTomography, n, base, experiment_scaled)
     choi = call("LI process", li.process)
     err = np.abs(choi - choi_ref).max()
     if err > 1e-8:
@@ -91,7 +99,7 @@ def run_proc(case):
         if not (0.99 <= pf <= 1 + 1e-3) or not (0.99 <= rf <= 1 + 1e-3):
             raise Violation(f"MLE fidelity to choi_from_unitary(V): {pf:.5f} (reported {rf:.5f})", key="mle-fidelity")
         labels.append("mle")
-    gf = call("GateFidelity", tomography.GateFidelity, n, base, experiment)
+    gf = call("GateFidelity", tomography.GateFidelity, n, base, experiment_scaled)
     f1 = call("GateFidelity.process(V)", gf.process, V)
     if abs(f1 - 1) > 1e-8:
         raise Violation(f"gate fidelity against V itself = {f1}", key="gate-fidelity-self")
